@@ -2,6 +2,7 @@ package pypi
 
 import (
 	"fmt"
+	"strconv"
 	"strings"
 )
 
@@ -81,6 +82,9 @@ func parseSingleConstraint(con string) ([]*constraint, error) {
 }
 
 // parseCompatibleRelease handles the ~= operator
+// ~=V.N is equivalent to >=V.N, ==V.* : the last release segment is dropped and the
+// remaining prefix must match (~=2.2 := >=2.2 <3, ~=1.4.5 := >=1.4.5 <1.5,
+// ~=1.4.5.0 := >=1.4.5.0 <1.4.6)
 func parseCompatibleRelease(version string) ([]*constraint, error) {
 	e := &Ecosystem{}
 	v, err := e.NewVersion(version)
@@ -88,7 +92,7 @@ func parseCompatibleRelease(version string) ([]*constraint, error) {
 		return nil, err
 	}
 
-	// ~=2.2 is equivalent to >=2.2, <3.0
+	// For single-segment versions like ~=1
 	if len(v.release) == 1 {
 		upperVersion := fmt.Sprintf("%d.0", v.release[0]+1)
 		return []*constraint{
@@ -97,61 +101,54 @@ func parseCompatibleRelease(version string) ([]*constraint, error) {
 		}, nil
 	}
 
-	// ~=1.4.2 is equivalent to >=1.4.2, <1.5.0
-	if len(v.release) >= 2 {
-		upperVersion := fmt.Sprintf("%d.%d.0", v.release[0], v.release[1]+1)
-		return []*constraint{
-			{operator: ">=", version: version},
-			{operator: "<", version: upperVersion},
-		}, nil
-	}
+	return []*constraint{
+		{operator: ">=", version: version},
+		{operator: "<", version: bumpLastSegment(v.epoch, v.release[:len(v.release)-1])},
+	}, nil
+}
 
-	return []*constraint{{operator: ">=", version: version}}, nil
+// bumpLastSegment formats the release prefix with its last segment incremented
+func bumpLastSegment(epoch int, release []int) string {
+	parts := make([]string, len(release))
+	for i, segment := range release {
+		if i == len(release)-1 {
+			segment++
+		}
+		parts[i] = strconv.Itoa(segment)
+	}
+	bumped := strings.Join(parts, ".")
+	if epoch != 0 {
+		bumped = fmt.Sprintf("%d!%s", epoch, bumped)
+	}
+	return bumped
 }
 
 // parseWildcardConstraint handles wildcard constraints like ==1.2.* or !=1.2.*
+// ==P.* matches every version whose release starts with the segments of P, i.e.
+// >=P <P' where P' is P with its last segment incremented; !=P.* matches all others.
 func parseWildcardConstraint(operator, version string) ([]*constraint, error) {
 	// Remove the .* suffix
 	baseVersion := strings.TrimSuffix(version, ".*")
 
 	e := &Ecosystem{}
-	v, err := e.NewVersion(baseVersion + ".0")
+	v, err := e.NewVersion(baseVersion)
 	if err != nil {
 		return nil, err
 	}
 
-	if operator == "==" {
-		// ==1.2.* means >=1.2.0, <1.3.0
-		if len(v.release) >= 2 {
-			lowerBound := fmt.Sprintf("%d.%d.0", v.release[0], v.release[1])
-			upperBound := fmt.Sprintf("%d.%d.0", v.release[0], v.release[1]+1)
-			return []*constraint{
-				{operator: ">=", version: lowerBound},
-				{operator: "<", version: upperBound},
-			}, nil
-		}
+	upperBound := bumpLastSegment(v.epoch, v.release)
 
-		// ==1.* means >=1.0.0, <2.0.0
-		if len(v.release) >= 1 {
-			lowerBound := fmt.Sprintf("%d.0.0", v.release[0])
-			upperBound := fmt.Sprintf("%d.0.0", v.release[0]+1)
-			return []*constraint{
-				{operator: ">=", version: lowerBound},
-				{operator: "<", version: upperBound},
-			}, nil
-		}
+	if operator == "==" {
+		return []*constraint{
+			{operator: ">=", version: baseVersion},
+			{operator: "<", version: upperBound},
+		}, nil
 	}
 
 	if operator == "!=" {
-		// !=1.2.* means <1.2.0 or >=1.3.0
-		if len(v.release) >= 2 {
-			lowerBound := fmt.Sprintf("%d.%d.0", v.release[0], v.release[1])
-			upperBound := fmt.Sprintf("%d.%d.0", v.release[0], v.release[1]+1)
-			return []*constraint{
-				{operator: "<", version: lowerBound},
-				{operator: ">=", version: upperBound},
-			}, nil
-		}
+		return []*constraint{
+			{operator: "not-prefix", version: baseVersion, upper: upperBound},
+		}, nil
 	}
 
 	return nil, fmt.Errorf("unsupported wildcard constraint: %s%s", operator, version)
@@ -177,6 +174,7 @@ func (pr *VersionRange) Contains(version *Version) bool {
 type constraint struct {
 	operator string
 	version  string
+	upper    string // exclusive upper bound of the excluded prefix (operator "not-prefix")
 }
 
 // matches checks if the given version matches this constraint
@@ -193,6 +191,15 @@ func (c *constraint) matches(version *Version) bool {
 	}
 
 	comparison := version.Compare(constraintVersion)
+
+	// !=P.* excludes exactly the versions that ==P.* matches
+	if c.operator == "not-prefix" {
+		upperVersion, err := e.NewVersion(c.upper)
+		if err != nil {
+			return false
+		}
+		return !(comparison >= 0 && version.Compare(upperVersion) < 0)
+	}
 
 	switch c.operator {
 	case "==":
